@@ -23,8 +23,7 @@ STOPS = [("retStopCls", None), ("retStopInst", 5), ("retStopInst", None), ("rais
 OTHERS = [("retOther", None), ("raiseOther", None)]
 
 
-class CbError(Exception):
-    pass
+from booms import CbBoom as CbError, boom  # noqa: E402
 
 
 def method_of(name):
@@ -81,16 +80,50 @@ def _shared_cb(node, memo):
         if tag == "raiseStopIter":
             raise (StopIteration(v) if v is not None else StopIteration())
         if tag == "raiseOther":
-            raise CbError("boom")
+            raise boom("boom")
         raise AssertionError(tag)
 
 
-def impl_iter(tree, ser, path, m, add_self):
+_ITER_CALLS = [0]
+_ITER_KEYED = {}
+
+
+def impl_iter(tree, ser, path, m, add_self, inter=None):
+    """`inter`: two iterators of the same kind on the same tree, consumed in turns (two consumers alive at once: nested
+    loops, a zip of two traversals); both must deliver what one alone delivers.  None = every second call."""
+    if inter is None:
+        _ITER_CALLS[0] += 1
+        inter = _ITER_CALLS[0] % 2 == 0
     try:
-        if not path and not add_self:
-            nodes = list(tree.iterator(method_of(m)))
+        def mk():
+            if not path and not add_self:
+                return iter(tree.iterator(method_of(m)))
+            return iter(adapter.node_at(tree, path).iterator(method_of(m), add_self=add_self))
+
+        if not inter:
+            nodes = list(mk())
         else:
-            nodes = list(adapter.node_at(tree, path).iterator(method_of(m), add_self=add_self))
+            # the second traversal starts while the first one is under way (a nested loop)
+            na, nb = [], []
+            a = mk()
+            live = [(a, na)]
+            try:
+                na.append(next(a))
+            except StopIteration:
+                live = []
+            b = mk()
+            live.append((b, nb))
+            while live:
+                for it, acc in list(live):
+                    try:
+                        acc.append(next(it))
+                    except StopIteration:
+                        live.remove((it, acc))
+            ia, ib = [ser.of(n) for n in na], [ser.of(n) for n in nb]
+            same = (sorted(ia) == sorted(ib) and len(set(ia)) == len(ia)) if m in ("random", "unordered") else ia == ib
+            if not same:
+                return {"err": f"two {m} iterators consumed in turns deliver {ia} and {ib}"}
+            nodes = na
         return {"ok": [ser.of(n) for n in nodes]}
     except Exception as e:  # noqa
         return {"err": adapter.err_class(e)}
@@ -125,8 +158,11 @@ def setup_tree(ctx, spec, typed=False):
 
 def check_iter(ctx, out, tree, ser, tj, spec, path, m, add_self):
     req = {"op": "iter", "t": tj, "path": list(path), "m": m, "self": add_self}
-    impl = impl_iter(tree, ser, path, m, add_self)
-    case = dict(kind="iter", spec=spec, path=list(path), m=m, self=add_self)
+    key = (m, bool(path), add_self)
+    _ITER_KEYED[key] = _ITER_KEYED.get(key, 0) + 1
+    inter = _ITER_KEYED[key] % 2 == 0          # per kind of call: a shared counter runs in step with the enumeration
+    impl = impl_iter(tree, ser, path, m, add_self, inter)
+    case = dict(kind="iter", spec=spec, path=list(path), m=m, self=add_self, inter=inter)
     if m in ("random", "unordered") and not path and not add_self:
         # Tree.iterator: any permutation of all nodes
         want = sorted(adapter.ids(list(tree.iterator()), ser))
@@ -291,7 +327,7 @@ def replay(ctx, rp):
     out = core.Outcome()
     path = tuple(case["path"])
     if case["kind"] == "iter":
-        impl = impl_iter(tree, ser, path, case["m"], case["self"])
+        impl = impl_iter(tree, ser, path, case["m"], case["self"], bool(case.get("inter")))
         resp = ctx.driver.ask({"op": "iter", "t": tj, "path": list(path), "m": case["m"], "self": case["self"]})
     else:
         table = {int(k): tuple(v) for k, v in case["cb"].items()}
